@@ -21,6 +21,7 @@ type Case struct {
 	Shape []int   `json:"shape"` // statements per file
 	Runs  []Fault `json:"runs"`  // faulty runs, followed by clean runs until ErrNoPendingFiles
 	N     int     `json:"n"`     // ExecuteN argument (0 = all pending)
+	Salt  int     `json:"salt,omitempty"` // varies the statement text (and so every statement checksum the revisions record)
 	Ckpt  []int   `json:"ckpt,omitempty"` // 0-based indexes of the files that are checkpoints: a fresh history starts at the last one, nothing before it ever runs
 }
 
@@ -37,7 +38,12 @@ func (c Case) first() int {
 
 type sid struct{ f, i int }
 
-func text(s sid) string { return fmt.Sprintf("INSERT INTO t VALUES (%d, %d);", s.f, s.i) }
+func (c Case) text(s sid) string {
+	if c.Salt != 0 {
+		return fmt.Sprintf("INSERT INTO t VALUES (%d, %d, %d);", s.f, s.i, c.Salt)
+	}
+	return fmt.Sprintf("INSERT INTO t VALUES (%d, %d);", s.f, s.i)
+}
 
 type event struct {
 	exec   bool
@@ -73,11 +79,11 @@ func checkCase(c Case) (Outcome, error) {
 		}
 		for i := 0; i < n; i++ {
 			s := sid{f, i}
-			byText[text(s)] = s
+			byText[c.text(s)] = s
 			if f >= first {
 				order = append(order, s)
 			}
-			body += text(s) + "\n"
+			body += c.text(s) + "\n"
 		}
 		if err := dir.WriteFile(fmt.Sprintf("%d_f.sql", f+1), []byte(body)); err != nil {
 			return out, fmt.Errorf("harness: %v", err)
